@@ -21,8 +21,9 @@ TRUSTED = ["Noise NNpsk0 (noiseprotocol is not installed; an ideal nonce-indexed
            "Noise handshake verification (noise.read_message) is an abstract predicate handshakeOK in the theorems",
            "the relay's expected reply b'ok\\n' is written in the model by hand (correspondence-checked, not generated)",
            "Twisted: an exception leaving dataReceived drops the connection"]
-RULE = ("record codec cases (7 types x boundary fields), be4 boundary values, frame sealing at payload sizes around "
-        "0/65519/65520/2*65519, a _Framer on its own under chunkings (tokens vs one-shot), and whole-connection byte "
+RULE = ("record codec cases (7 types; every 32-bit field explicitly at 0, 1, 2**31-1, 2**31, 2**32-2, 2**32-1 through the "
+        "codec and through a whole connection), be4 at the same values and beyond, frame sealing and whole connections at "
+        "every encoded-message length around 0, 65519 (+1,+15,+16,+17), 2*65519 (-1..+17), 3*65519, a _Framer on its own under chunkings (tokens vs one-shot), and whole-connection byte "
         "streams (relay/no relay, leader/follower; the peer's bytes produced by the real send_record and compared with "
         "the model's sendRecord) under random / 1-byte / per-frame chunkings with single-point corruptions, truncation, "
         "insertion, wrong prologue, wrong relay reply, wrong key, swapped/duplicated frames; thorough adds every "
@@ -31,7 +32,19 @@ RULE = ("record codec cases (7 types x boundary fields), be4 boundary values, fr
 
 MAXP = 65519
 MUTS = ["flip", "trunc", "insert", "badpro", "badrelay", "swap", "dupkcm", "wrongkey", "badhs"]
-BOUND = [0, 1, 255, 256, 65535, 65536, 2**31, 2**32 - 1]
+# every 32-bit field (scid, seqnum, resp_seqnum, frame length) is exercised at these values explicitly
+BOUND32 = [0, 1, 2**31 - 1, 2**31, 2**32 - 2, 2**32 - 1]
+BOUND = BOUND32 + [255, 256, 65535, 65536]
+# encoded-message lengths at which send_record / decrypt_message change behaviour:
+# NOISE_MAX_PAYLOAD = 65519 (plaintext per packet), NOISE_MAX_CIPHERTEXT = 65535 (= 65519 + 16)
+SIZES = [0, 1, 9, MAXP - 1, MAXP, MAXP + 1, MAXP + 15, MAXP + 16, MAXP + 17, 2 * MAXP - 1, 2 * MAXP, 2 * MAXP + 1,
+         2 * MAXP + 16, 2 * MAXP + 17, 3 * MAXP, 3 * MAXP + 1]
+IN_RANGE = range(0, 2**32)
+
+
+def rec_in_range(spec):
+    """every integer field of the record is a 32-bit value (so encode_record must accept it)"""
+    return all(v in IN_RANGE for v in spec[1:] if isinstance(v, int))
 
 
 def show_rec(r):
@@ -95,14 +108,34 @@ def rand_rec(rng, wide=False):
 def cases(rng, tier):
     n = 1 if tier == "quick" else 40
     out = []
-    # corpus: boundary payload sizes for sealing
-    for size in [0, 1, MAXP - 1, MAXP, MAXP + 1, 2 * MAXP, 2 * MAXP + 1]:
-        out.append(dict(kind="seal", sizes=[size, 3, size]))
+    # corpus: every 32-bit field of every record type at every boundary value (the other field runs through
+    # the boundaries too): through a whole connection (real send_record on one side, real dataReceived on
+    # the other) first, so that a failure is reported as a record the peer does not recover …
+    bcodec = [["ack", v] for v in BOUND32]
+    for k in ("open", "data", "close"):
+        for a in BOUND32:
+            for b in BOUND32:
+                bcodec.append([k, a, b] + ([] if k == "close" else ["c3a9" if k == "open" else "00ff"]))
+    for i in range(0, len(bcodec), 12):
+        out.append(dict(kind="conn", relay=bool(i % 24), leader=bool(i % 36), recs=bcodec[i:i + 12],
+                        chunk=["all", "rand", "frames", "one"][(i // 12) % 4], select_after=[0, 1, 99][(i // 12) % 3],
+                        mut=None, mseed=i))
+    # … then through the codec alone
+    for r in bcodec:
+        out.append(dict(kind="codec", rec=r))
+    # corpus: every size boundary of the Noise packet split, for sealing (real send_record vs model, and the
+    # real decrypt_message must give the message back)
+    for i in range(0, len(SIZES), 2):
+        out.append(dict(kind="seal", sizes=SIZES[i:i + 2] + [3, SIZES[i]]))
+    # corpus: be4 at every boundary, in and out of range
     out.append(dict(kind="be4", values=BOUND + [2**32, 2**32 + 1, 2**33]))
-    # corpus: one Data record whose encoding is exactly at / just over one and two Noise packets, honest
-    for i, dlen in enumerate([MAXP - 10, MAXP - 9, MAXP - 8, 2 * MAXP - 9, 2 * MAXP - 8]):
+    # corpus: one Data / Open record whose encoding is exactly at / around every size boundary, honest
+    for i, size in enumerate(SIZES[3:]):
+        big = ["data", BOUND32[i % 6], BOUND32[(i + 3) % 6], "%%BIG%%%d" % (size - 9)]
+        if i % 4 == 3:
+            big = ["open", BOUND32[i % 6], BOUND32[(i + 3) % 6], "%%BIG%%%d" % (size - 9)]
         out.append(dict(kind="conn", relay=bool(i % 2), leader=bool(i // 2 % 2),
-                        recs=[["ack", 1], ["data", 2**32 - 1, 0, "%%BIG%%%d" % dlen], ["close", 3, 4]],
+                        recs=[["ack", 1], big, ["close", 3, 4]],
                         chunk=["all", "rand", "frames"][i % 3], select_after=[0, 1, 99][i % 3], mut=None, mseed=i))
     # corpus: every kind of manipulation once, on a fixed small stream
     small = [["open", 0, 1, "c3a9"], ["data", 1, 1, "00010203"], ["ping", "01020304"], ["close", 2, 1]]
@@ -137,13 +170,17 @@ def cases(rng, tier):
         recs = [rand_rec(rng) for _ in range(rng.randrange(0, 5))]
         recs = [r for r in recs if r[0] != "kcm"]
         if rng.random() < 0.15:
-            recs.append(["data", 1, 2, "%%BIG%%%d" % rng.choice([MAXP - 9, MAXP - 8, 2 * MAXP])])
+            recs.append(["data", rng.choice(BOUND32), rng.choice(BOUND32), "%%BIG%%%d" % (rng.choice(SIZES[3:]) - 9)])
         out.append(dict(kind="conn", relay=rng.random() < 0.4, leader=rng.random() < 0.5, recs=recs,
                         chunk=rng.choice(["all", "one", "rand", "rand", "frames"]),
                         select_after=rng.choice([0, 1, 2, 99]),
                         mut=rng.choice([None, None, "flip", "flip"] + MUTS),
                         mseed=rng.randrange(10**6)))
     return out
+
+
+def _is_hex(x):
+    return x == "-" or (len(x) % 2 == 0 and all(c in "0123456789abcdef" for c in x))
 
 
 def _catch(f):
@@ -156,18 +193,26 @@ def _catch(f):
 def run_case(case):
     k = case["kind"]
     if k == "be4":
-        lines, exp = [], []
+        lines, exp, viol = [], [], []
         for v in case["values"]:
             lines.append(f"be4 {v}")
             r = _catch(lambda: hx(to_be4(v)))
             exp.append(r)
-            if v < 2**32:
+            if v in IN_RANGE:
+                if r == "ValueError" or len(r) != 8:
+                    viol.append(("be4-roundtrip", f"to_be4({v}) = {r} for a 32-bit value"))
+                    continue
                 lines.append(f"unbe4 {r}")
-                exp.append(str(from_be4(bytes.fromhex(r))))
+                back = _catch(lambda: str(from_be4(bytes.fromhex(r))))
+                exp.append(back)
+                if back != str(v):
+                    viol.append(("be4-roundtrip", f"from_be4(to_be4({v})) = {back}"))
+            elif r != "ValueError":
+                viol.append(("be4-range", f"to_be4({v}) = {r}: a value outside 32 bits was encoded"))
         for h in ["-", "00", "000000", "0000000001"]:
             lines.append(f"unbe4 {h}")
             exp.append(_catch(lambda: str(from_be4(bytes.fromhex(h) if h != "-" else b""))))
-        return Result(lines, exp, tags=["be4"])
+        return Result(lines, exp, viol, tags=["be4"])
     if k == "codec":
         spec = case["rec"]
         r = mk_rec(spec)
@@ -175,39 +220,52 @@ def run_case(case):
         e = _catch(lambda: hx(encode_record(r)))
         lines, exp, viol = [line], [e], []
         tags = ["codec:" + spec[0]]
-        if e not in ("ValueError",):
+        if rec_in_range(spec) and not _is_hex(e):
+            viol.append(("codec-roundtrip", f"encode_record({show_rec(r)}) raised {e}: a well-formed record cannot be sent"))
+        if _is_hex(e):
             lines.append("parse " + e)
             back = _catch(lambda: show_rec(parse_record(bytes.fromhex(e))))
             exp.append(back)
             if back != show_rec(r):
                 viol.append(("codec-roundtrip", f"parse(encode({show_rec(r)})) = {back}"))
         else:
-            tags.append("codec:ValueError")
+            tags.append("codec:" + e)
+        if any(isinstance(v, int) and v in BOUND32 for v in spec[1:]):
+            tags.append("codec:boundary-field")
         return Result(lines, exp, viol, tags)
     if k == "parse":
         b = bytes.fromhex(case["data"])
         r = _catch(lambda: show_rec(parse_record(b)))
         return Result(["parse " + hx(b)], [r], tags=["parse:" + (r.split(" ")[0])])
     if k == "seal":
-        lines, exp = [], []
+        from ..util import set_automat_state
+        lines, exp, viol = [], [], []
         f = mock.Mock()
         alsoProvides(f, dc.IFramer)
-        n = ToyNoise()
-        rec = dc._Record(f, n, LEADER)
+        rec = dc._Record(f, ToyNoise(), LEADER)
+        rx = dc._Record(f, ToyNoise(), FOLLOWER)       # the peer's receive side, nonces in step
+        set_automat_state(rx, "want_message", attr="n")
         for size in case["sizes"]:
             payload = bytes((i * 7 + size) % 256 for i in range(max(size - 9, 0)))
-            r = Data(5, 6, payload) if size >= 9 else None
-            msg = encode_record(r) if r else bytes(range(size))
-            # drive the real send_record by patching encode_record's result size via a Data record
-            if r is None:
-                with mock.patch.object(dc, "encode_record", return_value=msg):
-                    rec.send_record(object())
-            else:
-                rec.send_record(r)
-            body = f.send_frame.call_args[0][0]
+            msg = (b"\x04" + b"\x00\x00\x00\x06" + b"\x00\x00\x00\x05" + payload) if size >= 9 else bytes(range(size))
             lines.append("seal " + hx(msg))
-            exp.append(hx(body))
-        return Result(lines, exp, tags=["seal"])
+            # the real send_record / decrypt_message on a message of exactly this length
+            with mock.patch.object(dc, "encode_record", return_value=msg), \
+                    mock.patch.object(dc, "parse_record", side_effect=lambda m: m):
+                try:
+                    rec.send_record(object())
+                    body = f.send_frame.call_args[0][0]
+                    exp.append(hx(body))
+                except Exception as e:
+                    exp.append(type(e).__name__)
+                    viol.append(("multi-packet-roundtrip", f"send_record raised {type(e).__name__} for a {size}-byte message"))
+                    break
+                back = _catch(lambda: rx.got_frame(body))
+            if back != msg:
+                viol.append(("multi-packet-roundtrip", f"decrypt_message(send_record(<{size}-byte message>)) = "
+                             f"{back if isinstance(back, str) else '<%d bytes>' % len(back)}"))
+                break
+        return Result(lines, exp, viol, tags=["seal"])
     if k == "conn":
         return run_conn(case)
     if k == "framer":
@@ -233,6 +291,9 @@ def expand_rec(spec):
     if spec[0] == "data" and isinstance(spec[3], str) and spec[3].startswith("%BIG%"):
         n = int(spec[3][5:])
         return ["data", spec[1], spec[2], bytes((i * 7 + n) % 251 for i in range(n)).hex()]
+    if spec[0] == "open" and isinstance(spec[3], str) and spec[3].startswith("%BIG%"):
+        n = int(spec[3][5:])
+        return ["open", spec[1], spec[2], bytes(97 + (i * 5 + n) % 26 for i in range(n)).hex()]
     return spec
 
 
@@ -253,10 +314,16 @@ def peer_pieces(relay, leader, recspecs, wrongkey=False):
     pfr._can_send_frames = True
     prec = dc._Record(pfr, peer_noise, FOLLOWER if leader else LEADER)
     recs = [KCM()] + [mk_rec(expand_rec(sp)) for sp in recspecs]
+    sends = []      # per record: the bytes written, or the name of the exception send_record raised
     for r in recs:
-        prec.send_record(r)
-        pieces.append(("rec", ptx.written.pop()))
-    return inbound, outbound, pieces, recs
+        try:
+            prec.send_record(r)
+            sends.append(ptx.written.pop())
+            pieces.append(("rec", sends[-1]))
+        except Exception as e:
+            del ptx.written[:]
+            sends.append(type(e).__name__)
+    return inbound, outbound, pieces, recs, sends
 
 
 def stream_len(relay, leader, recspecs):
@@ -293,7 +360,8 @@ def run_conn(case):
     mut = case["mut"]
     if mut == "badrelay" and not case["relay"]:
         mut = None
-    inbound, outbound, pieces, recs = peer_pieces(case["relay"], leader, case["recs"], wrongkey=(mut == "wrongkey"))
+    inbound, outbound, pieces, intended, sends = peer_pieces(case["relay"], leader, case["recs"], wrongkey=(mut == "wrongkey"))
+    recs = [r for r, sd in zip(intended, sends) if isinstance(sd, bytes)]     # what did get onto the wire
     honest_pieces = list(pieces)
     kcm_piece = 3 if case["relay"] else 2      # pieces before the KCM: [relay] prologue handshake
     first_bad_piece = None     # index of the first piece that is not delivered intact
@@ -412,9 +480,9 @@ def run_conn(case):
     exp = ["ok"]
     if mut != "wrongkey":
         # the model's honest sender against the real one: every record piece, byte for byte
-        for r, pc in zip(recs, honest_pieces[kcm_piece:]):
+        for r, sd in zip(intended, sends):
             lines.append("send " + show_rec(r))
-            exp.append(hx(pc[1]))
+            exp.append(hx(sd) if isinstance(sd, bytes) else sd)
     dead = None
     dead_at = None
     selected = False
@@ -472,6 +540,12 @@ def run_conn(case):
 
     def brief(rs):
         return [x if len(x) <= 48 else x[:40] + f"…({len(x)} chars)" for x in rs[:4]]
+    for r, sd in zip(intended, sends):
+        if not isinstance(sd, bytes):
+            # every record the harness hands over is well-formed (32-bit fields, 4-byte ping ids, str names)
+            viol.append(("lossless", f"{brief([show_rec(r)])[0]} could not be handed to the L2 connection: "
+                         f"send_record raised {sd}; the peer never recovers it"))
+            break
     if select_error:
         viol.append(("select-raised", f"select() after add_candidate raised {select_error[0]}"))
     if delivered_before_select:
